@@ -66,7 +66,7 @@ for _p, _profiles in {"C06": ["control"], "C07": ["control", "run"], "C08": ["co
                    wall_thorough=1500))
 
 
-_add(CheckSpec(property="C27", sim="simr", profiles=["faulty", "faulty", "faultfree"], runs_quick=400, runs_thorough=40000,
+_add(CheckSpec(property="C27", sim="simr", profiles=["faulty", "faulty", "faultfree"], runs_quick=800, runs_thorough=40000,
                level="fault_enumeration", rule="(filled)", assumptions=["(filled)"], wall_quick=50, wall_thorough=1500,
                run_timeout=120))
 
@@ -79,8 +79,18 @@ for _p, _profiles, _lvl in [("C28", ["runs"], "fault_enumeration"), ("C29", ["ru
                    rule="(filled)", assumptions=["(filled)"], wall_quick=50, wall_thorough=1500, run_timeout=60))
 
 
-_add(CheckSpec(property="C40", sim="simt", profiles=["mixed", "mixed", "locked"], runs_quick=1200, runs_thorough=120000,
+_add(CheckSpec(property="C40", sim="simt", profiles=["mixed", "mixed", "locked"], runs_quick=2400, runs_thorough=120000,
                level="exploration", rule="(filled)", assumptions=["(filled)"], wall_quick=50, wall_thorough=1500, run_timeout=90))
+
+
+def _finish():
+    from sims import rules
+    for pid, spec in SPECS.items():
+        spec.rule = rules.RULES[pid]
+        spec.assumptions = rules.ASSUMPTIONS[spec.sim]
+
+
+_finish()
 
 
 def get_spec(prop: str) -> CheckSpec:
